@@ -472,7 +472,7 @@ def build_program_cases(R, quick):
         cases.append(dict(text=text, goals=goals, shape="benchmark:" + b, expect="value"))
     fixed_mix = ("y = 0\nwhile true:\n    u = Normal(0, 1)\n    s = Sin(u)\n    f = Exp(u)\n    y = s*f\nend\n")
     cases.append(dict(text=fixed_mix, goals=[[["y", 1]]], shape="mix", expect="mix"))
-    n_gen = 34 if quick else 425
+    n_gen = 50 if quick else 450
     shapes = list(L.SHAPES)
     for i in range(n_gen):
         shape = shapes[i % len(shapes)]
